@@ -213,6 +213,10 @@ where
                 let b: std::sync::Arc<dyn RetryBudget> = std::sync::Arc::new(TokenBucketBudget::new(0.0, 10, 10));
                 wrap(RetryLayer::<Req, IErr>::builder().max_attempts(3).backoff(ExponentialBackoff::new(ms(1)).max_interval(ms(2))).budget(b).build().layer(inner))
             }
+            // a call that is not retried (a single attempt; an error the predicate refuses) comes back unchanged, and the
+            // wrapped service's readiness - which may have failed by then - is not the retry layer's business any more
+            3 => wrap(RetryLayer::<Req, IErr>::builder().max_attempts(1).fixed_backoff(ms(1)).build().layer(inner)),
+            4 => wrap(RetryLayer::<Req, IErr>::builder().max_attempts(3).fixed_backoff(ms(1)).retry_on(|e: &IErr| e.code == 2).build().layer(inner)),
             _ => wrap(RetryLayer::<Req, IErr>::builder().max_attempts_fn(|_r: &Req| 3).fixed_backoff(ms(1)).retry_on(|e: &IErr| e.code == 1).build().layer(inner)),
         },
         "timelimiter" => match v {
